@@ -50,6 +50,9 @@ def dispatch(pid, tier, replay):
     if pid == "C18":
         import pdfmap_checks
         return pdfmap_checks.c18(tier)
+    if pid == "C02":
+        import content_checks
+        return content_checks.c02(tier)
     raise common.MachineryError("no check for " + pid)
 
 
